@@ -947,6 +947,13 @@ def check_expressions(c):
             if a != b:
                 c.violation('expression-profile-drift', {'kind': 'impl-debug-vs-release', 'layer': 'L2 expression', 'text': tx[:600],
                                                          'debug_profile': list(a), 'release_profile': list(b)})
+    # the wording of the three admissible errors is taken from the implementation (FendError's Display)
+    em = try_parse(c.impl('num', [sx([Sym('err-msgs')])])[0])
+    if isinstance(em, list) and len(em) == 3 and all(isinstance(x, bytes) for x in em):
+        MSG = {'div0': em[0].decode(), '0^0': em[1].decode(), 'huge': em[2].decode()}
+    else:
+        MSG = {'div0': 'division by zero', '0^0': 'zero to the power of zero', 'huge': 'exponent too large'}
+    CODE_MSG = {1: MSG['div0'], 2: MSG['0^0'], 3: MSG['huge']}
     sampled = False
     for idx, (t, fam) in enumerate(all_trees):
         e = text_of(t)
@@ -989,7 +996,7 @@ def check_expressions(c):
                 c.violation('expression-value', rp)
                 continue
         elif skind in ('div0', '0^0', 'huge'):
-            msg = {'div0': 'division by zero', '0^0': 'zero to the power of zero', 'huge': 'exponent too large'}[skind]
+            msg = MSG[skind]
             if not all(x[0] == 'e' and msg in x[1] for x in (o_dbg, o_re, o_im, o_plain)):
                 c.violation('expression-error', dict(rp, expected_error=msg))
                 continue
@@ -1009,7 +1016,7 @@ def check_expressions(c):
                 else:
                     c.violation('expression-model-drift', dict(rp, kind='impl-vs-model', model_debug=mtxt), no_input=True)
         elif nm[0] == 'err':
-            msg = {1: 'division by zero', 2: 'zero to the power of zero', 3: 'exponent too large'}.get(nm[1])
+            msg = CODE_MSG.get(nm[1])
             if msg is None or not (o_dbg[0] == 'e' and msg in o_dbg[1]):
                 if not (known and nm[1] == 12):
                     c.violation('expression-model-drift', dict(rp, kind='impl-vs-model'), no_input=True)
